@@ -9,6 +9,13 @@ history = {
  'C10a':'after','C11a':'design','C13a':'after','C14a':'design','C15a':'design','C16a':'after','C17a':'after','C18a':'design','C19a':'after','C20a':'design',
  'C01b':'built','C02b':'after','C03b':'built','C04b':'after','C05b':'built','C06b':'after','C07b':'after','C08b':'built','C09b':'after',
  'C10b':'after','C11b':'built','C13b':'built','C14b':'built','C15b':'built','C16b':'after','C17b':'after','C18b':'after','C19b':'built','C20b':'after',
+ # round c: written while the rule set was frozen (tag rules-frozen-before-round-c); first run recorded in refs/round_c_first_run.txt.
+ # 'frozen' = caught at the first run by a rule of its own property; 'frozen-other' = caught at the first run, but only by a rule
+ # that was then attached to another property (or by an anchor that went undecided), the property's rule list / a semantic
+ # obligation was added afterwards; 'after' = missed at the first run, obligation added afterwards.
+ 'C01c':'frozen-other','C02c':'after','C03c':'frozen','C04c':'frozen-other','C05c':'frozen-other','C06c':'after','C07c':'after','C08c':'after',
+ 'C09c':'after','C10c':'frozen-other','C11c':'after','C13c':'frozen-other','C14c':'after','C15c':'frozen-other','C16c':'after','C17c':'frozen-other',
+ 'C18c':'after','C19c':'frozen','C20c':'frozen',
 }
 seeds = sys.argv[1:] or sorted(os.listdir('seeded'))
 out = subprocess.run(['tools/run_seeds.sh'] + seeds, capture_output=True, text=True).stdout
